@@ -206,19 +206,40 @@ def r4(ctx):
     if not d:
         ctx.bad(R, "writehalf-drop", "", "WriteHalf has no Drop impl")
         return
+    SEND = re.compile(r"WriteHalf::send$|send_segment$|World::send_message$|stream::send_loopback$")
+
+    def seq_err_edges(xb):
+        """the edges on which no sequence number could be obtained (stream already reset): Err of WriteHalf::seq, incl. its `?`"""
+        out = []
+        for sbb, m, els, adt, pl in variant_edges(xb, lambda p: True):
+            o = origin(xb, {"c": {"l": pl["l"]}}) if not pl.get("p") else {"k": "?"}
+            if adt == "std::result::Result" and o.get("k") == "call" and o["t"]["f"].endswith("WriteHalf::seq"):
+                out += [e for v, e in m.items() if v == "Err"] + ([els] if "Err" not in m else [])
+            if adt == "std::ops::ControlFlow" and o.get("k") == "call" and o["t"]["f"].endswith("Try>::branch"):
+                o2 = origin(xb, o["t"]["args"][0])
+                if o2.get("k") == "call" and o2["t"]["f"].endswith("WriteHalf::seq"):
+                    out += [e for v, e in m.items() if v == "Break"]
+        return out
+
+    def fin_wrappers():
+        """methods of WriteHalf that send the FIN unless no sequence number is available (a helper shared by shutdown and drop)"""
+        out = set()
+        for cb in ctx.w.find(r"^turmoil::net::tcp::stream::WriteHalf::\w+$"):
+            ss = [bb for bb, t in cb.calls(SEND)]
+            fins = any(s2["r"]["k"] == "agg" and s2["r"].get("variant") == "Fin" for bb, i, s2 in cb.all_stmts() if i != "term")
+            if ss and fins and not always_passes(cb, ss, through_edges=seq_err_edges(cb)):
+                out.add(cb.id)
+        return out
+    wrappers = fin_wrappers()
     for fb in ctx.w.family(d):
         sh = []
         for sbb, te, fe, o in guards_on(fb, lambda o: o["k"] == "place" and place_has_field(o["p"], "turmoil::net::tcp::stream::WriteHalf::is_shutdown")):
             sh += fe
         if not sh:
             continue
-        sends = [bb for bb, t in fb.calls(re.compile(r"WriteHalf::send$|send_segment$|World::send_message$|stream::send_loopback$"))]
+        sends = [bb for bb, t in fb.calls(SEND)] + [bb for bb, t in fb.calls() if t["f"] in wrappers]
         # allowed skip: the Err edge of self.seq(world)
-        seq_err = []
-        for sbb, m, els, adt, pl in variant_edges(fb, lambda p: True):
-            o = origin(fb, {"c": {"l": pl["l"]}}) if not pl.get("p") else {"k": "?"}
-            if adt == "std::result::Result" and o.get("k") == "call" and o["t"]["f"].endswith("WriteHalf::seq"):
-                seq_err += [e for v, e in m.items() if v == "Err"] + ([els] if "Err" not in m else [])
+        seq_err = seq_err_edges(fb)
         leak = always_passes(fb, sends, frm=sh[0][1], through_edges=seq_err)
         ok = bool(sends) and not leak
         ctx.inst(R, "writehalf-drop:fin-unless-shutdown", ok, fb.span, "an open write half always announces its end with a FIN when dropped" if ok else
